@@ -275,7 +275,19 @@ pub struct RunCfg {
     pub only_sub: Option<String>,
 }
 
+fn trace_case(sub: &Sub, idx: u64) {
+    use std::io::Write;
+    static TRACE: std::sync::OnceLock<Option<Mutex<std::fs::File>>> = std::sync::OnceLock::new();
+    let t = TRACE.get_or_init(|| std::env::var("VH_TRACE_FILE").ok().and_then(|p| std::fs::File::create(p).ok()).map(Mutex::new));
+    if let Some(f) = t {
+        let mut f = f.lock().unwrap();
+        let _ = writeln!(f, "{}\t{}", sub.name, idx);
+        let _ = f.flush();
+    }
+}
+
 fn run_case(sub: &Sub, idx: u64, describe: bool) -> Result<Outcome, String> {
+    trace_case(sub, idx);
     match catch_unwind(AssertUnwindSafe(|| (sub.run)(idx, describe))) {
         Ok(o) => Ok(o),
         Err(_) => Err(format!(
